@@ -102,15 +102,22 @@ def same(a, b):
 
 
 def generalise(case):
-    """Locus: family / mechanism / operator / width-signedness class (int == int32_t, byte == uint8_t collapse)."""
+    """Locus: family / mechanism / operator / signedness and width class relative to int (s<int, sint, s>int, u<int, uint, u>int)."""
     from vf.gen import c3gen
+
+    def cls(t):
+        if t not in c3gen.INTS:
+            return t
+        b, sg = c3gen.INTS[t]
+        return ("s" if sg else "u") + ("<int" if b < 32 else ("int" if b == 32 else ">int"))
+
     parts = case["feat"].split("/")
     out = []
     for x in parts:
         if "->" in x:
-            out.append("->".join(c3gen.cls(a) for a in x.split("->")))
+            out.append("->".join(cls(a) for a in x.split("->")))
         else:
-            out.append(c3gen.cls(x) if x in c3gen.INTS else x)
+            out.append(cls(x))
     return case["fam"] + "/" + "/".join(out)
 
 
